@@ -61,3 +61,79 @@ Example c11_nonvacuous :
   wf_block (mk 10 1 4 0 22) = true /\ contains (mk 10 1 4 0 22) (V4 10 1 7 255) = true /\
   contains (mk 10 1 4 0 22) (V4 10 1 8 0) = false /\ encode (mk 10 1 4 0 22) = ([10; 1; 4], 22).
 Proof. vm_compute. repeat split; reflexivity. Qed.
+
+(* The refresh endpoint with everything a request can carry.  [f] is the submitted form (any names,
+   any values - identity, requestor_netblock, target_netblock, duration, unknown parameters); [k] says
+   whether the submitted public key is acceptable.  A refresh of a minted certificate succeeds only
+   from inside its blocks and hands back exactly the identity and the blocks of the certificate
+   presented; it succeeds from every peer inside; and this stays so over any number of refreshes:
+   whatever certificate the chain ends with, it is the minted one and is accepted only from inside
+   the blocks it was FIRST minted for. *)
+Theorem c11_refresh_sound : forall cn blocks p f k id bl,
+  forallb wf_block blocks = true ->
+  refresh (minted cn blocks) p f k = Some (id, bl) ->
+  id = cn /\ bl = blocks /\ k = true /\ exists b, In b blocks /\ contains b p = true.
+Proof. exact refresh_sound. Qed.
+Print Assumptions c11_refresh_sound.
+
+Theorem c11_refresh_complete : forall cn blocks p f,
+  forallb wf_block blocks = true ->
+  (exists b, In b blocks /\ contains b p = true) ->
+  refresh (minted cn blocks) p f true = Some (cn, blocks).
+Proof. exact refresh_complete. Qed.
+Print Assumptions c11_refresh_complete.
+
+Theorem c11_refresh_chain_same : forall steps cn blocks c',
+  forallb wf_block blocks = true ->
+  refresh_chain (minted cn blocks) steps = Some c' -> c' = minted cn blocks.
+Proof. exact refresh_chain_same. Qed.
+Print Assumptions c11_refresh_chain_same.
+
+Theorem c11_refresh_chain_reach : forall steps cn blocks c' q,
+  forallb wf_block blocks = true ->
+  refresh_chain (minted cn blocks) steps = Some c' ->
+  verify_ip (rc_ext c') q = true -> exists b, In b blocks /\ contains b q = true.
+Proof. exact refresh_chain_reach. Qed.
+Print Assumptions c11_refresh_chain_reach.
+
+(* a refresh that lets the request "narrow" the blocks with a test on base addresses only is not
+   this function: it turns a /24 into a /8 *)
+Theorem c11_narrowing_by_base_refuted :
+  exists cn blocks p req id bl q,
+    forallb wf_block blocks = true /\
+    refresh_narrowing_by_base (minted cn blocks) p req = Some (id, bl) /\
+    verify_ip (ext_of bl) q = true /\ verify_ip (ext_of blocks) q = false.
+Proof. exact refresh_narrowing_by_base_refuted. Qed.
+Print Assumptions c11_narrowing_by_base_refuted.
+
+(* The request side: the minting endpoint receives CIDR texts; net.ParseCIDR masks the address
+   ([canon]).  For every list of CIDRs a text can denote (byte-valued octets, prefix at most 32 -
+   the address need NOT be the network address) the minted certificate authenticates a peer iff the
+   peer lies in one of the CIDRs as written, i.e. iff its leading p bits are those of a.b.c.d; and
+   the netblocks read back are the canonical forms.  This discharges the well-formedness hypothesis of
+   c11_iff / c11_extract_minted for everything the endpoint can mint. *)
+Theorem c11_canon_wf : forall b, cidr_ok b = true -> wf_block (canon b) = true.
+Proof. exact canon_wf. Qed.
+Print Assumptions c11_canon_wf.
+
+Theorem c11_mint_parse_exact : forall cn req p,
+  forallb cidr_ok req = true ->
+  (verify_ip (rc_ext (mint_request cn req)) p = true <-> exists b, In b req /\ contains b p = true).
+Proof. exact mint_parse_exact. Qed.
+Print Assumptions c11_mint_parse_exact.
+
+Theorem c11_mint_parse_numeric : forall cn req a0 a1 a2 a3,
+  forallb cidr_ok req = true -> a0 < 256 -> a1 < 256 -> a2 < 256 -> a3 < 256 ->
+  (verify_ip (rc_ext (mint_request cn req)) (V4 a0 a1 a2 a3) = true <->
+   exists b, In b req /\ bnum b / 2 ^ (32 - plen b) = num a0 a1 a2 a3 / 2 ^ (32 - plen b)).
+Proof. exact mint_parse_numeric. Qed.
+Print Assumptions c11_mint_parse_numeric.
+
+Theorem c11_mint_parse_readback : forall cn req,
+  forallb cidr_ok req = true -> extract (rc_ext (mint_request cn req)) = Some (map canon req).
+Proof. exact mint_parse_readback. Qed.
+Print Assumptions c11_mint_parse_readback.
+
+Example c11_canon_example :
+  canon (mk 10 1 7 255 22) = mk 10 1 4 0 22 /\ cidr_ok (mk 10 1 7 255 22) = true /\ wf_block (mk 10 1 7 255 22) = false.
+Proof. vm_compute. repeat split; reflexivity. Qed.
